@@ -83,18 +83,47 @@ static WD_START_MS: AtomicU64 = AtomicU64::new(0); // 0 = idle
 static WD_LABEL: AtomicPtr<u8> = AtomicPtr::new(std::ptr::null_mut());
 static WD_LABEL_LEN: AtomicUsize = AtomicUsize::new(0);
 static WD_LIMIT_MS: AtomicU64 = AtomicU64::new(10_000);
+// the limit of the region published right now (an enclosing "case" region gets three times the
+// single-call limit)
+static WD_CUR_LIMIT_MS: AtomicU64 = AtomicU64::new(10_000);
+// enclosing region: the whole case (one buffer through every operation, one history, one builder
+// program).  A call region inside it takes over while it lasts; when it ends the enclosing region is
+// published again with a fresh start time, so what is measured is always one stretch of library
+// calls on one input, never the case as a whole.
+static WD_OPTR: AtomicPtr<u8> = AtomicPtr::new(std::ptr::null_mut());
+static WD_OLEN: AtomicUsize = AtomicUsize::new(0);
+static WD_OLABEL: AtomicPtr<u8> = AtomicPtr::new(std::ptr::null_mut());
+static WD_OLABEL_LEN: AtomicUsize = AtomicUsize::new(0);
+// a witness source for cases that are not a byte buffer: (fn(*const ()) -> Value, *const ())
+static WD_SRC_FN: AtomicUsize = AtomicUsize::new(0);
+static WD_SRC_DATA: AtomicUsize = AtomicUsize::new(0);
+// small numbers that complete a byte witness (attribute kind, raw type, transaction id)
+static WD_AUX: [AtomicU64; 4] = [AtomicU64::new(0), AtomicU64::new(0), AtomicU64::new(0), AtomicU64::new(0)];
+
+/// Something that can describe the case it is (as the witness `./check replay` understands).
+pub trait WitnessSrc {
+    fn witness(&self) -> Value;
+}
+fn call_src<T: WitnessSrc>(p: *const ()) -> Value {
+    unsafe { (*(p as *const T)).witness() }
+}
 
 /// Change the single-call limit of the in-process watchdog (isolated replays use 55 s).
 pub fn set_watchdog_limit(ms: u64) {
     WD_LIMIT_MS.store(ms, Ordering::SeqCst);
 }
 
-fn now_ms(t0: Instant) -> u64 {
-    t0.elapsed().as_millis() as u64 + 1
+/// one time base for every thread's regions and for the watchdog thread
+static WD_T0: std::sync::OnceLock<Instant> = std::sync::OnceLock::new();
+fn now_ms(_t0: Instant) -> u64 {
+    WD_T0.get_or_init(Instant::now).elapsed().as_millis() as u64 + 1
 }
 
 pub struct Watchdog {
     t0: Instant,
+    /// false for the helper contexts of worker threads: they publish nothing (the regions are
+    /// process-wide and belong to the shard's main thread)
+    live: bool,
 }
 
 /// Snapshot of the currently published case, for the crash handler in the binary
@@ -122,7 +151,7 @@ impl Watchdog {
                     continue;
                 }
                 let now = now_ms(t0c);
-                if now > st && now - st > WD_LIMIT_MS.load(Ordering::SeqCst) {
+                if now > st && now - st > WD_CUR_LIMIT_MS.load(Ordering::SeqCst) {
                     // the main thread is stuck inside one library call that only borrows the
                     // published buffer immutably, so reading it here is sound in practice.
                     let p = WD_PTR.load(Ordering::SeqCst);
@@ -139,12 +168,29 @@ impl Watchdog {
                     } else {
                         String::from_utf8_lossy(unsafe { std::slice::from_raw_parts(lp, ll) }).to_string()
                     };
+                    // the witness: what the case says it is (the main thread is stuck inside the
+                    // library, the case it borrowed is not changing), or the published bytes
+                    let sf = WD_SRC_FN.load(Ordering::SeqCst);
+                    let sd = WD_SRC_DATA.load(Ordering::SeqCst);
+                    let mut witness = if sf != 0 && sd != 0 {
+                        let f: fn(*const ()) -> Value = unsafe { std::mem::transmute(sf) };
+                        f(sd as *const ())
+                    } else if label == "AttributeFromRaw::from_raw" {
+                        let a: Vec<u64> = WD_AUX.iter().map(|x| x.load(Ordering::SeqCst)).collect();
+                        let mut tid = [0u8; 12];
+                        tid[..8].copy_from_slice(&a[2].to_be_bytes());
+                        tid[8..].copy_from_slice(&(a[3] as u32).to_be_bytes());
+                        json!({"kind": "typed-decode", "attr": crate::refimpl::attrs::Kind::from_code(a[0] as u16).map(|k| k.name()).unwrap_or("?"), "raw_type": a[1], "value": crate::refimpl::crypto::hex(&buf), "tid": crate::refimpl::crypto::hex(&tid)})
+                    } else {
+                        json!({"kind": "bytes", "buf": crate::refimpl::crypto::hex(&buf)})
+                    };
+                    witness["entry"] = json!(label);
                     let rec = json!({
                         "hang": true,
                         "property": prop,
                         "label": label,
                         "elapsed_ms": now - st,
-                        "witness": {"kind": "bytes", "entry": label, "buf": crate::refimpl::crypto::hex(&buf)},
+                        "witness": witness,
                     });
                     if let Some(p) = &out_path {
                         let _ = std::fs::write(format!("{p}.hang"), rec.to_string());
@@ -156,24 +202,91 @@ impl Watchdog {
         }
         #[cfg(miri)]
         let _ = (&out_path, &prop);
-        Watchdog { t0 }
+        Watchdog { t0, live: true }
     }
     /// A watchdog handle that never starts a thread (for helper contexts on worker threads).
     pub fn inert() -> Watchdog {
-        Watchdog { t0: Instant::now() }
+        Watchdog { t0: Instant::now(), live: false }
     }
     /// Publish the case about to run.  `label` must be a 'static string.
     #[inline]
     pub fn enter(&self, label: &'static str, buf: &[u8]) {
+        if !self.live {
+            return;
+        }
+        WD_START_MS.store(0, Ordering::SeqCst);
         WD_PTR.store(buf.as_ptr() as *mut u8, Ordering::SeqCst);
         WD_LEN.store(buf.len(), Ordering::SeqCst);
         WD_LABEL.store(label.as_ptr() as *mut u8, Ordering::SeqCst);
         WD_LABEL_LEN.store(label.len(), Ordering::SeqCst);
+        WD_CUR_LIMIT_MS.store(WD_LIMIT_MS.load(Ordering::SeqCst), Ordering::SeqCst);
         WD_START_MS.store(now_ms(self.t0), Ordering::SeqCst);
     }
+    /// `enter` plus four numbers that complete the witness (see the watchdog thread).
+    #[inline]
+    pub fn enter_aux(&self, label: &'static str, buf: &[u8], aux: [u64; 4]) {
+        for (a, v) in WD_AUX.iter().zip(aux) {
+            a.store(v, Ordering::SeqCst);
+        }
+        self.enter(label, buf);
+    }
+    /// End of a call region: the enclosing case region (if any) is published again, its clock restarted.
     #[inline]
     pub fn leave(&self) {
+        if !self.live {
+            return;
+        }
         WD_START_MS.store(0, Ordering::SeqCst);
+        let ol = WD_OLABEL.load(Ordering::SeqCst);
+        if ol.is_null() {
+            WD_PTR.store(std::ptr::null_mut(), Ordering::SeqCst);
+            WD_LEN.store(0, Ordering::SeqCst);
+            return;
+        }
+        WD_PTR.store(WD_OPTR.load(Ordering::SeqCst), Ordering::SeqCst);
+        WD_LEN.store(WD_OLEN.load(Ordering::SeqCst), Ordering::SeqCst);
+        WD_LABEL.store(ol, Ordering::SeqCst);
+        WD_LABEL_LEN.store(WD_OLABEL_LEN.load(Ordering::SeqCst), Ordering::SeqCst);
+        WD_CUR_LIMIT_MS.store(3 * WD_LIMIT_MS.load(Ordering::SeqCst), Ordering::SeqCst);
+        WD_START_MS.store(now_ms(self.t0), Ordering::SeqCst);
+    }
+    /// Begin a case region over a byte buffer: every stretch of work on this buffer that is not inside
+    /// a call region of its own is attributed to `label` and the buffer.  Returns false (and does
+    /// nothing) when a case region is already open, so that nested engines keep the outermost case.
+    #[inline]
+    pub fn enter_case(&self, label: &'static str, buf: &[u8]) -> bool {
+        if !self.live || !WD_OLABEL.load(Ordering::SeqCst).is_null() {
+            return false;
+        }
+        WD_OPTR.store(buf.as_ptr() as *mut u8, Ordering::SeqCst);
+        WD_OLEN.store(buf.len(), Ordering::SeqCst);
+        WD_OLABEL_LEN.store(label.len(), Ordering::SeqCst);
+        WD_OLABEL.store(label.as_ptr() as *mut u8, Ordering::SeqCst);
+        self.leave();
+        true
+    }
+    /// Begin a case region over a case that describes itself (a history, a builder program).
+    #[inline]
+    pub fn enter_case_src<T: WitnessSrc>(&self, label: &'static str, src: &T) -> bool {
+        if !self.live || !WD_OLABEL.load(Ordering::SeqCst).is_null() {
+            return false;
+        }
+        WD_SRC_DATA.store(src as *const T as usize, Ordering::SeqCst);
+        WD_SRC_FN.store(call_src::<T> as usize, Ordering::SeqCst);
+        self.enter_case(label, &[])
+    }
+    /// End of the case region opened by an `enter_case*` call that returned true.
+    #[inline]
+    pub fn leave_case(&self, opened: bool) {
+        if !opened {
+            return;
+        }
+        WD_START_MS.store(0, Ordering::SeqCst);
+        WD_SRC_FN.store(0, Ordering::SeqCst);
+        WD_SRC_DATA.store(0, Ordering::SeqCst);
+        WD_OLABEL.store(std::ptr::null_mut(), Ordering::SeqCst);
+        WD_OPTR.store(std::ptr::null_mut(), Ordering::SeqCst);
+        WD_OLEN.store(0, Ordering::SeqCst);
         WD_PTR.store(std::ptr::null_mut(), Ordering::SeqCst);
         WD_LEN.store(0, Ordering::SeqCst);
     }
